@@ -13,7 +13,86 @@ MODEL_TRUST = [
     "UTF-8 validity, hash iteration order, chrono/BigDecimal library conversions: outside the model (DESIGN section 7)",
 ]
 
+
+V0_NOTE = ("Theorems cover every type expression and every value (induction, no depth bound) over environments of "
+           "headerless declarations (built-in types, tuples, derived structs/enums without evolution steps); records with "
+           "evolution headers are covered by the correspondence families, not yet by a theorem.")
+
 PROPS = {
+    "C01": {
+        "families": [{"name": "ty"}],
+        "tags": {"rt": "direct", "dec-model": "indirect", "abs-diff": "indirect", "enc-outcome": "indirect"},
+        "rule": "built-in catalogue (about 110 type expressions: every constructor, arities 1-8, byte containers, arrays incl. [T;0], "
+                "nested depth <= 3, chrono/uuid/bignum leaves) x boundary-biased values; impl round trip (oracle), model decode of the "
+                "impl bytes, model bytes; distinct = distinct (type, canonical value) with an encoding of >= 2 bytes",
+        "trusted": MODEL_TRUST,
+        "assumptions": ["TZ=UTC", "Rust types are instantiated to depth 3 (the theorems have no depth bound)"],
+        "partial": "chrono/BigDecimal/BigInt/Tz leaves are outside the model: implementation-side round-trip oracle only",
+        "level_text": "Proof: decode(encode v ++ t) = (v, t) for every type expression over the built-in vocabulary and every value, by "
+                      "induction on the value (rt_all), at any source state and for any continuation; leaf codecs (fixed-width, bool, char, "
+                      "String, DeduplicatedString, Duration, byte arrays, Uuid, Weekday, Month, FixedOffset) proved individually (rt_prim); "
+                      "lifted to the faithful DeserializationContext transcription by the refinement theorem. The model is tied to the code "
+                      "by the ty family on every run.",
+        "level_note": "Trusted: Lean kernel; hand-written model; correspondence harness. Outside the model: chrono calendar conversions, Tz "
+                      "names, Local offset, BigDecimal Display/FromStr, BigInt byte conversion, hash iteration order; UTF-8 validity is a hypothesis.",
+    },
+    "C05": {
+        "families": [{"name": "raw", "release": True}, {"name": "decl", "release": True}, {"name": "hist"}],
+        "release_too": True,
+        "tags": {"dec-panic": "direct", "dec-slow": "direct", "dec-alloc": "direct", "panic-unpredicted": "indirect",
+                 "model-panics": "indirect", "abs-diff": "indirect"},
+        "rule": "raw: all byte strings of length <= 2 over a 12-symbol alphabet, var-int boundary prefixes, random strings <= 24 bytes, "
+                "systematic single-byte edits (+1, -1, +7 at every position) and random mutants of valid encodings, for every catalogue type; "
+                "decl/hist: the same tampering on derived and evolved declarations and every cross-version pair; debug (overflow checks) and "
+                "release builds; a counting allocator and a progress file attribute aborts, hangs and stack overflows. "
+                "distinct = distinct (type, bytes) on which the implementation returns Ok",
+        "trusted": MODEL_TRUST,
+        "partial": "panic-freedom of the decoder programs on arbitrary input is not yet a theorem (only of the context arithmetic, for every "
+                   "program); stack exhaustion, allocator aborts and time are measured, not modelled; zero-width element sequences excluded (DESIGN 9.7)",
+        "level_text": "Proof (partial): for every decoder program and every input the transcription of DeserializationContext's arithmetic "
+                      "never panics by itself (refinement theorem), primitive reads are total for every requested length, cursors never leave "
+                      "their windows, and valid encodings never reach a panic node. Whether the decoder programs reach a panic node on arbitrary "
+                      "bytes is decided per run by the correspondence: every implementation panic / abort / hang / oversized allocation is an "
+                      "oracle failure, and must have been predicted by the model.",
+        "level_note": "Partial: see coverage.partial. Trusted: Lean kernel, model, harness; Miri/ASan not used.",
+    },
+    "C06": {
+        "families": [{"name": "raw"}, {"name": "decl"}, {"name": "hist"}],
+        "tags": {"invent": "direct", "abs-diff": "indirect"},
+        "rule": "same inputs as C05; relation: implementation Ok(v) implies the reference decoder (runAbs dec) gives exactly v and the same "
+                "consumption. distinct = distinct (type, bytes) accepted by the implementation",
+        "trusted": MODEL_TRUST,
+        "level_text": "Proof: the strict reference decoder is the operation-tree decoder over list windows (a chunk is a sub-list); the "
+                      "refinement theorem shows, for every program, that the real region arithmetic returns what the reference returns; "
+                      "arrays are produced only from exactly N elements. The implementation is compared with the reference on every tampered "
+                      "and raw input of the run.",
+        "level_note": "The reference's fidelity to the format is by reading (DESIGN 4.5). Abstract panics (region escaping its window) are excluded "
+                      "for valid encodings by theorem and for other inputs by observation (none occurs).",
+    },
+    "C07": {
+        "families": [{"name": "ty"}, {"name": "decl"}, {"name": "hist"}],
+        "tags": {"consume": "direct", "cross-consume": "direct", "dec-model": "indirect", "abs-diff": "indirect"},
+        "rule": "every encoded value followed by a random suffix: decode through an explicit context, drain it, compare with the suffix; "
+                "all (writer, reader) version pairs of the generated histories with stored version >= 1 (and version 0 without removals)",
+        "trusted": MODEL_TRUST,
+        "partial": "evolved records: correspondence only",
+        "level_text": "Proof: the continuation t in the round-trip theorems is arbitrary, so decoding consumes exactly the encoding "
+                      "(consumes_exactly, sequential, and the same for the faithful context).",
+        "level_note": V0_NOTE,
+    },
+    "C08": {
+        "families": [{"name": "ty"}, {"name": "decl"}, {"name": "hist"}],
+        "tags": {"prefix": "direct", "cross-prefix": "direct"},
+        "rule": "every strict prefix (all cut points up to 96 bytes, sampled beyond) of every encoding generated by ty/decl, and of every "
+                "cross-version encoding of hist with stored version >= 1, must be Err on the implementation",
+        "trusted": MODEL_TRUST,
+        "partial": "evolved records: correspondence only",
+        "level_text": "Proof: for every decoder program a successful run is unchanged by appending data (run_extends, induction on the "
+                      "operation tree) and cursors stay in their windows (run_AllWF); with consumption this gives: no strict prefix of an "
+                      "encoding decodes to a value (prefix_rejected).",
+        "level_note": V0_NOTE,
+    },
+
     "C11": {
         "families": [{"name": "varint"}],
         "tags": {
